@@ -155,16 +155,16 @@ func NewTree() *BPTree {
 	return &BPTree{LastAddress: 0, keyPosMap: make(map[string]int64), enabledKeyPosMap: false}
 }
 
-var queue *Node
-
-func enqueue(node *Node) {
+// enqueue and dequeue work on the caller's own queue: a package-level queue
+// would be shared by every DB of the process.
+func enqueue(queue **Node, node *Node) {
 	var c *Node
 
-	if queue == nil {
-		queue = node
-		queue.Next = nil
+	if *queue == nil {
+		*queue = node
+		(*queue).Next = nil
 	} else {
-		c = queue
+		c = *queue
 		for c.Next != nil {
 			c = c.Next
 		}
@@ -173,9 +173,9 @@ func enqueue(node *Node) {
 	}
 }
 
-func dequeue() *Node {
-	n := queue
-	queue = queue.Next
+func dequeue(queue **Node) *Node {
+	n := *queue
+	*queue = (*queue).Next
 
 	return n
 }
@@ -324,12 +324,12 @@ func (t *BPTree) WriteNodes(rwMode RWMode, syncEnable bool, flag int) error {
 		return err
 	}
 
-	queue = nil
+	var queue *Node
 
-	enqueue(t.root)
+	enqueue(&queue, t.root)
 
 	for queue != nil {
-		n = dequeue()
+		n = dequeue(&queue)
 
 		_, err := t.WriteNode(n, -1, syncEnable, fd)
 		if err != nil {
@@ -340,7 +340,7 @@ func (t *BPTree) WriteNodes(rwMode RWMode, syncEnable bool, flag int) error {
 			if !n.isLeaf {
 				for i = 0; i <= n.KeysNum; i++ {
 					c, _ := n.pointers[i].(*Node)
-					enqueue(c)
+					enqueue(&queue, c)
 				}
 			}
 		}
